@@ -369,6 +369,10 @@ func (c *Collection) WriteCas(key string, exp Exp, cas CAS, val any, opt sgbucke
 				} else {
 					err = sgbucket.CasMismatchErr{Expected: cas, Actual: existingCas}
 				}
+			} else if _, isMissing := err2.(sgbucket.MissingError); isMissing && existingCas != 0 && cas != 0 {
+				// The key exists as a tombstone with a different CAS: that is a CAS mismatch
+				// (e.g. it was deleted since the caller read it), not a missing key.
+				err = sgbucket.CasMismatchErr{Expected: cas, Actual: existingCas}
 			} else {
 				err = err2
 			}
